@@ -131,25 +131,28 @@ func runC04(p *P, r *R) {
 		// R04.4 full check
 		nFull := 0
 		for _, ret := range returnsOf(f) {
-			isFull := false
-			if len(ret.Results) == 1 {
-				if u, ok := resultOf(ret, 0).(*ssa.UnOp); ok && u.Op == token.MUL {
+			if len(ret.Results) != 1 {
+				continue
+			}
+			for _, rc := range returnCases(ret, 0) {
+				isFull := false
+				if u, ok := rc.V.(*ssa.UnOp); ok && u.Op == token.MUL {
 					if g, ok := u.X.(*ssa.Global); ok && g.Name() == "ErrQueueFull" {
 						isFull = true
 					}
 				}
-			}
-			if !isFull {
-				continue
-			}
-			nFull++
-			okEdge := false
-			for _, fct := range factsAt(ret.Block()) {
-				if rel := c04FullRel(p, fct, cursor); rel == ">=" || rel == "==" {
-					okEdge = true
+				if !isFull {
+					continue
 				}
+				nFull++
+				okEdge := false
+				for _, fct := range factsAt(rc.At) {
+					if rel := c04FullRel(p, fct, cursor); rel == ">=" || rel == "==" {
+						okEdge = true
+					}
+				}
+				r.ob("R04.4", fn+": ErrQueueFull only on the edge tail-head >= cap of atomically loaded cursors", p.ipos(ret), okEdge, true, "")
 			}
-			r.ob("R04.4", fn+": ErrQueueFull only on the edge tail-head >= cap of atomically loaded cursors", p.ipos(ret), okEdge, true, "")
 		}
 		r.count("R04.4", "ErrQueueFull returns in "+fn, nFull, 1)
 		for _, s := range stores {
